@@ -381,7 +381,7 @@ pub fn run(ctx: &mut Ctx) -> Result<(), Violation> {
         3 => 0usize..700,
     ];
     let strat = (0..nif, proptest::collection::vec(piece, 0..40), any::<u64>(), 0usize..300);
-    let n = ctx.tier.pick(40_000u32, 400_000);
+    let n = ctx.tier.pick(40_000u32, 2_000_000);
     let ifs2 = ifs.clone();
     run_prop("C08", "chunking", seed, n, strat.prop_map(move |(ii, pieces, fill, tail)| {
         let mut cuts = vec![];
